@@ -4,6 +4,7 @@ Non-interference argument in four structural legs:
  R1 isolation   : in every function reachable from planning(), each call that propagates a path (propagate /
                   propagate_and_optimize_mode) receives a path all of whose definitions are deep copies
                   (deepcopy(..), the value handed back by the propagation itself, or an empty list).
+ R2 element state: (part of R2) persistent-state dataflow per element class, see statefields.py.
  R2 no leakage  : nothing reachable from those calls or from any element __call__ writes a module global or a class
                   attribute, nor the equipment library; the per-element state that one propagation leaves behind and
                   the next one reads is exactly the frozen table below (protected by R1); no process-wide settings
